@@ -8,7 +8,7 @@
    (case_and_trim_unicode ff.). *)
 From Coq Require Import String Ascii.
 From Coq Require Import List ZArith.
-From Formula Require Import Base.Utf8 Lex.CaseTables Lex.CaseMap Gen.ImplTables Tie.TablesTie Sem.Eval Proofs.BuiltinFacts Proofs.CaseMapFacts.
+From Formula Require Import Base.Utf8 Lex.CaseTables Lex.CaseMap Gen.ImplTables Tie.TablesTie Sem.Eval Proofs.BuiltinFacts Proofs.CaseMapFacts Proofs.TrimFacts.
 Import ListNotations.
 Local Open Scope Z_scope.
 
@@ -291,6 +291,25 @@ Theorem case_and_trim_unicode : forall off s, all_ascii s = false ->
   builtin_apply off (str "upper") [VStr s] = Ok (VStr (CaseMap.upper_utf8 s)).
 Proof. exact BuiltinFacts.trim_non_ascii. Qed.
 
+(* trim beyond ASCII: the text is (white space) ++ (trimmed text) ++ (white space), and the trimmed text neither
+   starts nor ends with a white-space character; U+200B, U+FEFF and invalid bytes are not white space *)
+Theorem trim_removes_surrounding_white_space_only : forall s, exists a b,
+  Utf8.decode_all s = a ++ TrimFacts.trimmed_steps s ++ b /\ Forall TrimFacts.space_step a /\ Forall TrimFacts.space_step b /\
+  s = Utf8.steps_bytes a ++ CaseMap.trim_utf8 s ++ Utf8.steps_bytes b.
+Proof. exact TrimFacts.trim_utf8_middle. Qed.
+
+Theorem trimmed_text_has_no_white_space_at_its_ends : forall s,
+  match TrimFacts.trimmed_steps s with p :: _ => CaseMap.is_unicode_space (fst p) = false | [] => True end /\
+  match rev (TrimFacts.trimmed_steps s) with p :: _ => CaseMap.is_unicode_space (fst p) = false | [] => True end.
+Proof. exact TrimFacts.trim_utf8_edges. Qed.
+
+Theorem trim_examples_unicode :
+  CaseMap.trim_utf8 [194; 160; 226; 128; 168; 195; 169; 32; 120; 227; 128; 128; 9]%Z = [195; 169; 32; 120]%Z /\
+  CaseMap.trim_utf8 [226; 128; 139; 97; 32]%Z = [226; 128; 139; 97]%Z /\
+  CaseMap.trim_utf8 [32; 255; 32]%Z = [255]%Z /\
+  CaseMap.trim_utf8 [194; 133; 225; 154; 128]%Z = [].
+Proof. exact TrimFacts.trim_examples. Qed.
+
 Theorem upper_maps_each_character : forall s,
   CaseMap.upper_utf8 s = flat_map (fun p => Utf8.encode_rune (CaseMap.to_upper_rune (fst p))) (Utf8.decode_all s).
 Proof. reflexivity. Qed.
@@ -388,6 +407,9 @@ Print Assumptions replace_empty_pattern.
 Print Assumptions trim_spec.
 Print Assumptions trim_idempotent.
 Print Assumptions case_and_trim_unicode.
+Print Assumptions trim_removes_surrounding_white_space_only.
+Print Assumptions trimmed_text_has_no_white_space_at_its_ends.
+Print Assumptions trim_examples_unicode.
 Print Assumptions upper_maps_each_character.
 Print Assumptions lower_maps_each_character.
 Print Assumptions case_tables_are_the_code's.
